@@ -49,6 +49,7 @@ func (r *verifC20Repo) install() {
 type verifC20Item struct {
 	loc    string
 	dir    bool
+	socket bool // a socket node: never restored, but part of the snapshot (protected from --delete)
 	parent int // index of the parent item, -1 for entries of the root
 }
 
@@ -71,11 +72,15 @@ func (g *verifC20Gen) level(prefix string, parent, depth, maxDepth int) restic.I
 		loc := path.Join(prefix, nm)
 		if k == 1 {
 			tp := data.NodeTypeFile
+			sock := false
 			if nm == "b" {
 				tp = data.NodeTypeSymlink
+				if verifrt.Bool("socket") {
+					tp, sock = data.NodeTypeSocket, true
+				}
 			}
 			nodes = append(nodes, &data.Node{Name: nm, Type: tp})
-			g.items = append(g.items, verifC20Item{loc: loc, parent: parent})
+			g.items = append(g.items, verifC20Item{loc: loc, parent: parent, socket: sock})
 			continue
 		}
 		g.items = append(g.items, verifC20Item{loc: loc, dir: true, parent: parent})
@@ -177,6 +182,8 @@ func VerifC20_Traverse() {
 		leaveDir: func(_ *data.Node, _, location string, entries []string) error {
 			if location == "/" {
 				rootLeft = true
+				left = append(left, "/")
+				leftEntries = append(leftEntries, entries)
 			} else {
 				left = append(left, location)
 				leftEntries = append(leftEntries, entries)
@@ -209,6 +216,11 @@ func VerifC20_Traverse() {
 			continue
 		}
 		s, _ := f.get(it.loc, it.dir)
+		if it.socket {
+			verifrt.Reach("socket")
+			verifrt.Assert(!verifC20Has(visited, it.loc) && !verifC20Has(entered, it.loc), "a socket node was restored")
+			continue
+		}
 		if s || below[i] {
 			anySelected = true
 			if it.parent >= 0 {
@@ -249,7 +261,7 @@ func VerifC20_Traverse() {
 				if path.Dir(it.loc) != loc {
 					continue
 				}
-				if s, _ := f.get(it.loc, it.dir); s {
+				if s, _ := f.get(it.loc, false); s { // removeUnexpectedFiles asks the filter with isDir=false
 					verifrt.Reach("delete-protects")
 					verifrt.Assert(verifC20Has(leftEntries[k], path.Base(it.loc)), "--delete: a selected snapshot entry is missing from the names to keep in "+loc)
 				}
